@@ -3,6 +3,7 @@ import LeanHelix.Props.C13Net
 import LeanHelix.Props.C11Net
 import LeanHelix.Lemmas.TermIndep
 import LeanHelix.Props.C05Accept
+import LeanHelix.Net.Sent
 /-!
 # C05 at the network level: one good view decides (composition of the liveness pieces)
 
@@ -213,7 +214,7 @@ structure Holds (C : NetCfg) (v hash : Nat) (b : Block) (j : Nat) (n : Node) : P
 /-- the member's own COMMIT for the proposal is logged and was sent -/
 def CommitSentAt (C : NetCfg) (v hash : Nat) (j : Nat) (n : Node) (outs : List Out) : Prop :=
   C03.ckey (ownCommit (C.cfg j) C.height v hash) ∈ n.store.commits.map C03.ckey
-  ∧ Out.send (others (C.cfg j)) (.commit (ownCommit (C.cfg j) C.height v hash)) ∈ outs
+  ∧ ∃ rs, Out.send rs (.commit (ownCommit (C.cfg j) C.height v hash)) ∈ outs
 
 theorem holds_prepares (v hash : Nat) (b : Block) (j : Nat) (pms : List PMsg) : ∀ (w : Term.W),
     Holds C v hash b j w.n → Holds C v hash b j (pms.foldl handlePrepare w).n := by
@@ -278,6 +279,9 @@ structure Crew (C : NetCfg) (v : Nat) (R : List Nat) : Prop where
   nodup : R.Nodup
   notLeader : ldr C v ∉ R
   nonempty : R ≠ []
+  /-- no non-leader is alone in `R` (with a single non-leader whose weight together with the leader's is a
+  quorum, "its own PREPARE is logged but it is not prepared" is not a reachable state, but that is not proved here) -/
+  two : ∀ j ∈ R, ∃ k ∈ R, k ≠ j
   good : ∀ k ∈ R ++ [ldr C v], C.honest k = true ∧ ∃ m ∈ C.ms, m.id = k
   quorum : isQuorum (C.cfg 0) (R ++ [ldr C v]) = true
 
@@ -309,6 +313,42 @@ theorem all_logged_commit (ids : List Nat) (h v hash : Nat) (ppm : PPMsg) (b : B
   have := (C05.commits_when_quorum ({ w with n := { w.n with store := w.n.store.storeCommit cm } } : Term.W) h v hash ppm b hnc hppS hb hh hq' hctx).1
   rw [this]; rfl
 
+/-- delivering once more a PREPARE of a logged quorum makes a node that somehow is not prepared become prepared and send its COMMIT -/
+theorem all_logged_prepare (R : List Nat) (h v hash : Nat) (ppm : PPMsg) (c : Cfg) (hfit : C06.Fits c.members)
+    (hq : isQuorum c (R ++ [ppm.c.sender.id]) = true) (hbk : ppm.block.isSome = true) (hh : ppm.c.header.hash = hash)
+    (w : Term.W) (hcfg : w.n.cfg = c) (hpp : w.n.store.getPP h v = some ppm)
+    (hall : ∀ id ∈ R, (h, v, hash, id) ∈ w.n.store.prepares.map C11.pkey) (hnp : w.n.prepared ≠ some v)
+    (pm : PMsg) (hpa : C08.PrepareAuthentic w.n pm) (hk : pm.header.height = h ∧ pm.header.view = v ∧ pm.header.hash = hash) :
+    C05.CommitSent c h v hash (handlePrepare w pm) := by
+  obtain ⟨a1, a2, a3, a4, a5⟩ := hpa
+  have hunf : handlePrepare w pm = checkPreparedLocally { w with n := { w.n with store := w.n.store.storePrepare pm } } h v hash := by
+    unfold handlePrepare
+    dsimp only
+    rw [if_neg (by simp [a1]), if_neg (by simp [a2]), if_neg (by simp [a3]), if_neg a4, if_neg (by simp [a5]), hk.1, hk.2.1, hk.2.2]
+  have hppS : ({ w with n := { w.n with store := w.n.store.storePrepare pm } } : Term.W).n.store.getPP h v = some ppm :=
+    apply_getPP_stable w.n.store (.prepare pm) h v ppm hpp
+  have hpre : isPreprepared ({ w with n := { w.n with store := w.n.store.storePrepare pm } } : Term.W).n h v hash = true := by
+    unfold isPreprepared; rw [hppS]; simp [hbk, hh]
+  have hqq : isQuorum ({ w with n := { w.n with store := w.n.store.storePrepare pm } } : Term.W).n.cfg
+      ((({ w with n := { w.n with store := w.n.store.storePrepare pm } } : Term.W).n.store.getPrepares h v hash).map (·.sender.id) ++ [ppm.c.sender.id]) = true := by
+    show isQuorum w.n.cfg (((w.n.store.storePrepare pm).getPrepares h v hash).map (·.sender.id) ++ [ppm.c.sender.id]) = true
+    rw [hcfg]
+    apply C06.isQuorum_mono c.members hfit (R ++ [ppm.c.sender.id]) _ _ hq
+    intro i hi
+    rcases List.mem_append.mp hi with hi | hi
+    · apply List.mem_append_left
+      apply C05.mem_getPrepares_ids
+      obtain ⟨x, hx, hxk⟩ := List.mem_map.mp (hall i hi)
+      exact List.mem_map.mpr ⟨x, C05.apply_prepares_sub w.n.store (.prepare pm) x hx, hxk⟩
+    · exact List.mem_append_right _ hi
+  have hcond : PreparedCond ({ w with n := { w.n with store := w.n.store.storePrepare pm } } : Term.W).n h v hash :=
+    ⟨hnp, hpre, ppm, hppS, hqq⟩
+  rw [hunf, C05.checkPreparedLocally_of_cond _ _ _ _ hcond]
+  obtain ⟨_, e2, e3⟩ := C05.onPreparedLocally_effects ({ w with n := { w.n with store := w.n.store.storePrepare pm } } : Term.W) h v hash
+  have hc1 : ({ w with n := { w.n with store := w.n.store.storePrepare pm } } : Term.W).n.cfg = c := hcfg
+  rw [hc1] at e2 e3
+  exact ⟨e3, e2⟩
+
 theorem committed_fold (cms : List CMsg) : ∀ (w : Term.W), w.n.committed.isSome = true →
     (cms.foldl handleCommit w).n.committed.isSome = true := by
   induction cms with
@@ -322,13 +362,10 @@ theorem gate_commit (j k : Nat) (hkj : k ≠ j) (v hash : Nat) :
     Gate (C.cfg j) (.deliver (.commit (ownCommit (C.cfg k) C.height v hash))) := ⟨rfl, rfl, hkj, trivial⟩
 
 /-- before the PREPARE phase: the member holds the proposal in view `v`, its own PREPARE is logged
-(non-leaders), and either its COMMIT is already out or it is not prepared and some PREPARE of `R` is
-still missing from its log (the state right after accepting the proposal) -/
-def Pre1 (C : NetCfg) (v hash : Nat) (b : Block) (R : List Nat) (j : Nat) (n : Node) (outs : List Out) : Prop :=
+(non-leaders) -/
+def Pre1 (C : NetCfg) (v hash : Nat) (b : Block) (R : List Nat) (j : Nat) (n : Node) (_ : List Out) : Prop :=
   j ∈ R ++ [ldr C v] ∧ Holds C v hash b j n ∧ n.view = v
   ∧ (j ≠ ldr C v → (C.height, v, hash, j) ∈ n.store.prepares.map C11.pkey)
-  ∧ (CommitSentAt C v hash j n outs
-      ∨ (n.prepared ≠ some v ∧ ∃ id ∈ R, (C.height, v, hash, id) ∉ n.store.prepares.map C11.pkey))
 
 def Post1 (C : NetCfg) (v hash : Nat) (b : Block) (R : List Nat) (j : Nat) (n : Node) (outs : List Out) : Prop :=
   j ∈ R ++ [ldr C v] ∧ Holds C v hash b j n ∧ CommitSentAt C v hash j n outs
@@ -339,7 +376,7 @@ def Side1 (C : NetCfg) (v hash : Nat) (R : List Nat) (net : Net) : Prop :=
 
 def Side2 (C : NetCfg) (v hash : Nat) (R : List Nat) (net : Net) : Prop :=
   (∀ k ∈ R ++ [ldr C v], net.started k = true)
-  ∧ (∀ k ∈ R ++ [ldr C v], Out.send (others (C.cfg k)) (.commit (ownCommit (C.cfg k) C.height v hash)) ∈ net.outs k)
+  ∧ (∀ k ∈ R ++ [ldr C v], ∃ rs, Out.send rs (.commit (ownCommit (C.cfg k) C.height v hash)) ∈ net.outs k)
 
 section phases
 variable (hwf : WF C) (v hash : Nat) (b : Block) (R : List Nat) (crew : Crew C v R)
@@ -347,8 +384,19 @@ variable (hwf : WF C) (v hash : Nat) (b : Block) (R : List Nat) (crew : Crew C v
 include hwf crew in
 theorem turn1 (net : Net) (j : Nat) (hr : Reach C net) (hside : Side1 C v hash R net) (hpre : Pre1 C v hash b R j (net.node j) (net.outs j)) :
     ∃ net', Reach C net' ∧ Post1 C v hash b R j (net'.node j) (net'.outs j) ∧ Frame net net' j := by
-  obtain ⟨hjm, hholds, hview, hown, hpend⟩ := hpre
+  obtain ⟨hjm, hholds, hview, hown⟩ := hpre
   obtain ⟨hhj, hmj⟩ := crew.good j hjm
+  obtain ⟨ppm, hg, hb, hh, hsender⟩ := hholds.pp
+  -- already prepared in view v: its COMMIT is logged and sent (`reach_sent`)
+  by_cases hprep : (net.node j).prepared = some v
+  · obtain ⟨p0, hg0, hk0, rs, hs0⟩ := (reach_sent hr j).prepared v hprep
+    rw [hholds.cfg] at hg0 hk0 hs0
+    have : p0 = ppm := by
+      have e : (net.node j).store.getPP C.height v = some p0 := hg0
+      rw [hg] at e; exact (Option.some.inj e).symm
+    subst this
+    rw [hh] at hk0 hs0
+    exact ⟨net, hr, ⟨hjm, hholds, hk0, rs, hs0⟩, ⟨fun _ _ => ⟨rfl, rfl⟩, fun _ => rfl, fun _ h => h, fun _ h => h⟩⟩
   let pms := (R.filter (fun k => k != j)).map (fun k => ownPrepare (C.cfg k) C.height v hash)
   have hmem : ∀ pm ∈ pms, ∃ k ∈ R, k ≠ j ∧ pm = ownPrepare (C.cfg k) C.height v hash := by
     intro pm hpm
@@ -362,36 +410,76 @@ theorem turn1 (net : Net) (j : Nat) (hr : Reach C net) (hside : Side1 C v hash R
       obtain ⟨k, hk, _, rfl⟩ := hmem pm hpm
       obtain ⟨hhk, hmk⟩ := crew.good k (List.mem_append_left _ hk)
       exact C01Net.sent_admissible hwf hr hhk hmk (hside.2 k hk))
-  obtain ⟨ppm, hg, hb, hh, hsender⟩ := hholds.pp
   have hfit : C06.Fits (C.cfg j).members := hwf.fit
   have hq : isQuorum (C.cfg j) (R ++ [ppm.c.sender.id]) = true := by rw [hsender]; exact crew.quorum
-  have key := C05.good_view_prepares pms C.height v hash ppm R (C.cfg j) hfit hq (by rw [hb]; rfl) hh
-    (by intro pm hpm; obtain ⟨k, _, _, rfl⟩ := hmem pm hpm; rfl)
-    { n := net.node j, outs := net.outs j, spi := [] } hholds.cfg hview hg
-    (by
-      intro id hid
-      by_cases hij : id = j
-      · subst hij
-        left
-        exact hown (by intro e; rw [e] at hid; exact crew.notLeader hid)
-      · right
-        refine ⟨ownPrepare (C.cfg id) C.height v hash, ?_, ?_, rfl⟩
-        · exact List.mem_map.mpr ⟨id, List.mem_filter.mpr ⟨hid, by simpa using hij⟩, rfl⟩
-        · obtain ⟨_, hmid⟩ := crew.good id (List.mem_append_left _ hid)
-          refine C11.own_prepare_is_authentic_for_peers { cfg := C.cfg id } (net.node j) C.height v hash
-            (by rw [hholds.cfg]; rfl) (isMember_of_mem C id hmid) ?_ (by show (net.node j).view ≤ v; omega)
-          show (leaderId (C.cfg id) v == id) = false
-          have : leaderId (C.cfg id) v = ldr C v := rfl
-          rw [this]
-          simp only [beq_eq_false_iff_ne, ne_eq]
-          intro e; rw [← e] at hid; exact crew.notLeader hid)
-    (by
-      rcases hpend with hc | hc
-      · exact Or.inl hc
-      · exact Or.inr hc)
+  have hauth : ∀ id ∈ R, C08.PrepareAuthentic (net.node j) (ownPrepare (C.cfg id) C.height v hash) := by
+    intro id hid
+    obtain ⟨_, hmid⟩ := crew.good id (List.mem_append_left _ hid)
+    refine C11.own_prepare_is_authentic_for_peers { cfg := C.cfg id } (net.node j) C.height v hash
+      (by rw [hholds.cfg]; rfl) (isMember_of_mem C id hmid) ?_ (by show (net.node j).view ≤ v; omega)
+    show (leaderId (C.cfg id) v == id) = false
+    have : leaderId (C.cfg id) v = ldr C v := rfl
+    rw [this]
+    simp only [beq_eq_false_iff_ne, ne_eq]
+    intro e; rw [← e] at hid; exact crew.notLeader hid
+  have hR : ∀ (n' : Node), (∀ k, k ∈ (net.node j).store.prepares.map C11.pkey → k ∈ n'.store.prepares.map C11.pkey) →
+      (∀ x, C08.PrepareAuthentic (net.node j) x → C08.PrepareAuthentic n' x) → ∀ (l : List PMsg), (∀ x ∈ pms, x ∈ l ∨ C11.pkey x ∈ n'.store.prepares.map C11.pkey) →
+      ∀ id ∈ R, (C.height, v, hash, id) ∈ n'.store.prepares.map C11.pkey ∨
+        ∃ pm ∈ l, C08.PrepareAuthentic n' pm ∧ C11.pkey pm = (C.height, v, hash, id) := by
+    intro n' hkeys hau l hl id hid
+    by_cases hij : id = j
+    · subst hij
+      exact Or.inl (hkeys _ (hown (by intro e; rw [e] at hid; exact crew.notLeader hid)))
+    · have hin : ownPrepare (C.cfg id) C.height v hash ∈ pms :=
+        List.mem_map.mpr ⟨id, List.mem_filter.mpr ⟨hid, by simpa using hij⟩, rfl⟩
+      rcases hl _ hin with h1 | h1
+      · exact Or.inr ⟨_, h1, hau _ (hauth id hid), rfl⟩
+      · exact Or.inl h1
+  have key : C05.CommitSent (C.cfg j) C.height v hash (pms.foldl handlePrepare { n := net.node j, outs := net.outs j, spi := [] }) := by
+    by_cases hmiss : ∃ id ∈ R, (C.height, v, hash, id) ∉ (net.node j).store.prepares.map C11.pkey
+    · exact C05.good_view_prepares pms C.height v hash ppm R (C.cfg j) hfit hq (by rw [hb]; rfl) hh
+        (by intro pm hpm; obtain ⟨k, _, _, rfl⟩ := hmem pm hpm; rfl)
+        { n := net.node j, outs := net.outs j, spi := [] } hholds.cfg hview hg
+        (hR (net.node j) (fun _ h => h) (fun _ h => h) pms (fun x hx => Or.inl hx))
+        (Or.inr ⟨hprep, hmiss⟩)
+    · -- every PREPARE of `R` is logged already: the first redelivery makes the node prepared
+      have hall : ∀ id ∈ R, (C.height, v, hash, id) ∈ (net.node j).store.prepares.map C11.pkey := by
+        intro id hid
+        by_cases hk : (C.height, v, hash, id) ∈ (net.node j).store.prepares.map C11.pkey
+        · exact hk
+        · exact absurd ⟨id, hid, hk⟩ hmiss
+      -- there is a member of `R` other than `j`
+      obtain ⟨k, hk, hkj⟩ : ∃ k ∈ R, k ≠ j := by
+        by_cases hjR : j ∈ R
+        · exact crew.two j hjR
+        · obtain ⟨r0, hr0⟩ := List.exists_mem_of_ne_nil R crew.nonempty
+          exact ⟨r0, hr0, fun e => hjR (e ▸ hr0)⟩
+      have hne : pms ≠ [] := by
+        intro e
+        have : ownPrepare (C.cfg k) C.height v hash ∈ pms :=
+          List.mem_map.mpr ⟨k, List.mem_filter.mpr ⟨hk, by simpa using hkj⟩, rfl⟩
+        rw [e] at this; cases this
+      cases hc : pms with
+      | nil => exact absurd hc hne
+      | cons pm rest =>
+        obtain ⟨k', hk', _, hpmk⟩ := hmem pm (by rw [hc]; exact List.mem_cons_self ..)
+        simp only [List.foldl_cons]
+        have hfirst := all_logged_prepare R C.height v hash ppm (C.cfg j) hfit hq (by rw [hb]; rfl) hh
+          { n := net.node j, outs := net.outs j, spi := [] } hholds.cfg hg hall hprep pm
+          (by rw [hpmk]; exact hauth k' hk') (by rw [hpmk]; exact ⟨rfl, rfl, rfl⟩)
+        have hev := handlePrepare_ev { n := net.node j, outs := net.outs j, spi := [] } pm
+        exact C05.good_view_prepares rest C.height v hash ppm R (C.cfg j) hfit hq (by rw [hb]; rfl) hh
+          (by intro x hx; obtain ⟨k2, _, _, rfl⟩ := hmem x (by rw [hc]; exact List.mem_cons_of_mem _ hx); rfl)
+          _ (by rw [hev.cfg]; exact hholds.cfg) (by rw [C05.handlePrepare_view]; exact hview) (hev.getPP_stable _ _ _ hg)
+          (by
+            intro id hid
+            left
+            obtain ⟨x, hx, hxk⟩ := List.mem_map.mp (hall id hid)
+            exact List.mem_map.mpr ⟨x, C05.evolves_prepares_sub hev x hx, hxk⟩)
+          (Or.inl hfirst)
   refine ⟨net', hr', ⟨hjm, ?_, ?_⟩, hf⟩
   · rw [en]; exact holds_prepares v hash b j pms _ hholds
-  · unfold CommitSentAt; rw [en, eo]; exact key
+  · unfold CommitSentAt; rw [en, eo]; exact ⟨key.1, _, key.2⟩
 
 include hwf crew in
 theorem turn2 (net : Net) (j : Nat) (hr : Reach C net) (hside : Side2 C v hash R net) (hpre : Post1 C v hash b R j (net.node j) (net.outs j)) :
@@ -411,7 +499,8 @@ theorem turn2 (net : Net) (j : Nat) (hr : Reach C net) (hside : Side2 C v hash R
       intro cm hcm
       obtain ⟨k, hk, _, rfl⟩ := hmem cm hcm
       obtain ⟨hhk, hmk⟩ := crew.good k hk
-      exact C01Net.sent_admissible hwf hr hhk hmk (hside.2 k hk))
+      obtain ⟨rs, hs⟩ := hside.2 k hk
+      exact C01Net.sent_admissible hwf hr hhk hmk hs)
   refine ⟨net', hr', ?_, hf⟩
   rw [en]
   obtain ⟨ppm, hg, hb, hh, _⟩ := hholds.pp
@@ -491,7 +580,7 @@ theorem good_view_decides {net : Net} (hr : Reach C net) (hside : Side1 C v hash
   obtain ⟨n2, hr2, _, hpost2, _, _, hle2⟩ := sweep (C := C) (Post1 C v hash b R) (fun j n _ => n.committed.isSome = true) (Side2 C v hash R)
     (by
       intro a a' hs hle hst
-      exact ⟨fun k hk => by rw [hst]; exact hs.1 k hk, fun k hk => hle k _ (hs.2 k hk)⟩)
+      exact ⟨fun k hk => by rw [hst]; exact hs.1 k hk, fun k hk => by obtain ⟨rs, h⟩ := hs.2 k hk; exact ⟨rs, hle k _ h⟩⟩)
     (fun net j hr hs hp => turn2 hwf v hash b R crew net j hr hs hp)
     (R ++ [ldr C v]) hnd n1 hr1 hside2 hpost1
   refine ⟨n2, hr2, fun k o ho => hle2 k o (hle1 k o ho), ?_⟩
@@ -573,7 +662,7 @@ theorem turn0 (net : Net) (j : Nat) (hr : Reach C net) (hside : Side0 C v R nv n
   have hsend : Out.send (others (C.cfg j)) (.prepare (ownPrepare (C.cfg j) C.height v nv.pp.header.hash)) ∈ net'.outs j := by
     rw [e2]; apply List.mem_append_right
     have := s5; rw [hcfg] at this; exact this
-  refine ⟨net', hr', ⟨⟨hjm, ?_, ?_, ?_, ?_⟩, hsend⟩, ⟨fr, st, by intro o ho; rw [e2]; exact List.mem_append_left _ ho, hh⟩⟩
+  refine ⟨net', hr', ⟨⟨hjm, ?_, ?_, ?_⟩, hsend⟩, ⟨fr, st, by intro o ho; rw [e2]; exact List.mem_append_left _ ho, hh⟩⟩
   · -- Holds
     refine ⟨by rw [e1, s1]; exact hcfg, ⟨⟨nv.pp, nv.block⟩, by rw [e1]; exact s3, hshape.block, rfl, ?_⟩, by rw [e1]; exact hlive⟩
     show nv.pp.sender.id = ldr C v
@@ -582,17 +671,11 @@ theorem turn0 (net : Net) (j : Nat) (hr : Reach C net) (hside : Side0 C v R nv n
   · intro _
     rw [e1]
     have := s4; rw [hcfg] at this; exact this
-  · rcases s6 with hc | hc
-    · left
-      obtain ⟨k1, k2⟩ := hc
-      rw [hcfg] at k1 k2
-      exact ⟨by rw [e1]; exact k1, by rw [e2]; exact List.mem_append_right _ k2⟩
-    · right; rw [e1]; exact hc
 
 include hwf crew hshape in
 /-- **From the leader's NEW_VIEW to a decision.**  In any reachable state (schedule so far obeying A2)
-in which the correct leader of view `v` has sent its NEW_VIEW and holds its own proposal (`Pre1` for
-the leader), and correct followers `R` — together with the leader of quorum weight — are not ahead,
+in which the correct leader of view `v` has sent its NEW_VIEW, is still in view `v` and keeps its term
+context, and correct followers `R` — together with the leader of quorum weight — are not ahead,
 hold no proposal for `v`, have consumers that accept the block where they are asked, and keep their
 term context: delivering the NEW_VIEW to each of them, then the PREPAREs, then the COMMITs — all of
 them messages the crew really sent — leads to a reachable state in which every crew member has invoked
@@ -603,11 +686,19 @@ theorem good_view_from_newview {net : Net} (hr : Reach C net) (hA2 : TraceA2 net
       ∧ ((latestVote nv.header.votes).isNone = true →
           (askValidate { n := net.node j, spi := spi j } nv.header.height nv.header.view nv.block nv.pp.header.hash).2 = true)
       ∧ C05.Live (handleNewView { n := net.node j, spi := spi j } nv).n.reg C.height)
-    (hleader : Pre1 C v nv.pp.header.hash b R (ldr C v) (net.node (ldr C v)) (net.outs (ldr C v))) :
+    (hlview : (net.node (ldr C v)).view = v) (hllive : C05.Live (net.node (ldr C v)).reg C.height) :
     ∃ net', Reach C net' ∧ OutsLe net net'
       ∧ ∀ j ∈ R ++ [ldr C v], ∃ blk cs, Out.commit blk cs ∈ net'.outs j := by
   obtain ⟨hhL, hmL⟩ := crew.good (ldr C v) (List.mem_append_right _ (List.mem_singleton.mpr rfl))
   obtain ⟨rs, hsent⟩ := hside.2
+  -- the leader holds the proposal it sent (`reach_sent`)
+  have hleader : Pre1 C v nv.pp.header.hash b R (ldr C v) (net.node (ldr C v)) (net.outs (ldr C v)) := by
+    have hcfgL := C11Net.node_cfg hwf hr (ldr C v) hhL hmL
+    have hst := (reach_sent hr (ldr C v)).newViews rs nv hsent
+    rw [hcfgL, hshape.view] at hst
+    refine ⟨List.mem_append_right _ (List.mem_singleton.mpr rfl), ⟨hcfgL, ⟨⟨nv.pp, nv.block⟩, hst, hshape.block, rfl, ?_⟩, hllive⟩, hlview, fun h => absurd rfl h⟩
+    show nv.pp.sender.id = ldr C v
+    rw [hshape.ppSender, hshape.sender]
   -- the NEW_VIEW is a valid certificate for every follower (C11Net)
   have hpre0 : ∀ j ∈ R, Pre0 C v R nv spi j (net.node j) (net.outs j) := by
     intro j hj
@@ -696,27 +787,28 @@ theorem turn0pp (net : Net) (j : Nat) (hr : Reach C net) (hside : Side0pp C v R 
   have hsend : Out.send (others (C.cfg j)) (.prepare (ownPrepare (C.cfg j) C.height v ppm.c.header.hash)) ∈ net'.outs j := by
     rw [e2]; apply List.mem_append_right
     have := s5; rw [hcfg] at this; exact this
-  refine ⟨net', hr', ⟨⟨hjm, ?_, ?_, ?_, ?_⟩, hsend⟩, ⟨fr, st, by intro o ho; rw [e2]; exact List.mem_append_left _ ho, hh⟩⟩
+  refine ⟨net', hr', ⟨⟨hjm, ?_, ?_, ?_⟩, hsend⟩, ⟨fr, st, by intro o ho; rw [e2]; exact List.mem_append_left _ ho, hh⟩⟩
   · exact ⟨by rw [e1, s1]; exact hcfg, ⟨ppm, by rw [e1]; exact s3, hshape.block, rfl, hshape.sender⟩, by rw [e1]; exact hlive⟩
   · rw [e1]; exact s2
   · intro _
     rw [e1]
     have := s4; rw [hcfg] at this; exact this
-  · rcases s6 with hc | hc
-    · left
-      obtain ⟨k1, k2⟩ := hc
-      rw [hcfg] at k1 k2
-      exact ⟨by rw [e1]; exact k1, by rw [e2]; exact List.mem_append_right _ k2⟩
-    · right; rw [e1]; exact hc
 
 include hwf crew hshape in
 /-- **From the leader's PREPREPARE to a decision** (the normal case: view 0, or any view in which the
 members follow a stand-alone proposal). -/
 theorem good_view_from_preprepare {net : Net} (hr : Reach C net) (hside : Side0pp C v R ppm net)
     (hfollowers : ∀ j ∈ R, Pre0pp C v R ppm spi j (net.node j) (net.outs j))
-    (hleader : Pre1 C v ppm.c.header.hash b R (ldr C v) (net.node (ldr C v)) (net.outs (ldr C v))) :
+    (hlview : (net.node (ldr C v)).view = v) (hllive : C05.Live (net.node (ldr C v)).reg C.height) :
     ∃ net', Reach C net' ∧ OutsLe net net'
       ∧ ∀ j ∈ R ++ [ldr C v], ∃ blk cs, Out.commit blk cs ∈ net'.outs j := by
+  obtain ⟨hhL, hmL⟩ := crew.good (ldr C v) (List.mem_append_right _ (List.mem_singleton.mpr rfl))
+  have hleader : Pre1 C v ppm.c.header.hash b R (ldr C v) (net.node (ldr C v)) (net.outs (ldr C v)) := by
+    obtain ⟨rs, hsent⟩ := hside.2
+    have hcfgL := C11Net.node_cfg hwf hr (ldr C v) hhL hmL
+    have hst := (reach_sent hr (ldr C v)).preprepares rs ppm hsent
+    rw [hcfgL, hshape.view] at hst
+    exact ⟨List.mem_append_right _ (List.mem_singleton.mpr rfl), ⟨hcfgL, ⟨ppm, hst, hshape.block, rfl, hshape.sender⟩, hllive⟩, hlview, fun h => absurd rfl h⟩
   obtain ⟨n0, hr0, hs0, hpost0, hsame0, hst0, hle0⟩ := sweep (C := C) (Pre0pp C v R ppm spi)
     (fun j n outs => Pre1 C v ppm.c.header.hash b R j n outs
       ∧ Out.send (others (C.cfg j)) (.prepare (ownPrepare (C.cfg j) C.height v ppm.c.header.hash)) ∈ outs)
@@ -763,6 +855,12 @@ theorem exCrew : Crew exC 0 [2, 3] where
   nodup := by decide
   notLeader := by decide
   nonempty := by decide
+  two := by
+    intro j hj
+    have : j = 2 ∨ j = 3 := by simpa using hj
+    rcases this with rfl | rfl
+    · exact ⟨3, by decide, by decide⟩
+    · exact ⟨2, by decide, by decide⟩
   good := by
     intro k hk
     have : k = 2 ∨ k = 3 ∨ k = 1 := by
@@ -789,9 +887,9 @@ theorem ex_good_view : ∃ net, Reach exC net ∧ ∀ j ∈ [2, 3, 1], ∃ blk c
     have hj' : j = 2 ∨ j = 3 ∨ j = 1 := by rw [hl] at hj; simpa using hj
     rw [hn, ho]
     rcases hj' with rfl | rfl | rfl
-    · refine ⟨hj, ⟨rfl, ⟨exPP, by decide, rfl, rfl, by decide⟩, ⟨by decide, by decide⟩⟩, by decide, fun _ => by decide, Or.inr ⟨by decide, 3, by decide, by decide⟩⟩
-    · refine ⟨hj, ⟨rfl, ⟨exPP, by decide, rfl, rfl, by decide⟩, ⟨by decide, by decide⟩⟩, by decide, fun _ => by decide, Or.inr ⟨by decide, 2, by decide, by decide⟩⟩
-    · refine ⟨hj, ⟨rfl, ⟨exPP, by decide, rfl, rfl, by decide⟩, ⟨by decide, by decide⟩⟩, by decide, fun h => absurd hl.symm h, Or.inr ⟨by decide, 2, by decide, by decide⟩⟩
+    · refine ⟨hj, ⟨rfl, ⟨exPP, by decide, rfl, rfl, by decide⟩, ⟨by decide, by decide⟩⟩, by decide, fun _ => by decide⟩
+    · refine ⟨hj, ⟨rfl, ⟨exPP, by decide, rfl, rfl, by decide⟩, ⟨by decide, by decide⟩⟩, by decide, fun _ => by decide⟩
+    · refine ⟨hj, ⟨rfl, ⟨exPP, by decide, rfl, rfl, by decide⟩, ⟨by decide, by decide⟩⟩, by decide, fun h => absurd hl.symm h⟩
   obtain ⟨net', hr', _, hc⟩ := good_view_decides exWF 0 99 exBlock [2, 3] exCrew hr hside hpre
   refine ⟨net', hr', ?_⟩
   intro j hj
@@ -806,7 +904,12 @@ theorem ex_good_view_after_view_change :
   have hA2 : TraceA2 net.trace := by rw [ht]; exact (List.append_nil _).symm ▸ C11Net.exVC_traceA2
   have hl : ldr exC 1 = 2 := by decide
   have crew : Crew exC 1 [1, 3] := by
-    refine ⟨by decide, by decide, by decide, ?_, by decide⟩
+    refine ⟨by decide, by decide, by decide, ?_, ?_, by decide⟩
+    · intro j hj
+      have : j = 1 ∨ j = 3 := by simpa using hj
+      rcases this with rfl | rfl
+      · exact ⟨3, by decide, by decide⟩
+      · exact ⟨1, by decide, by decide⟩
     intro k hk
     have : k = 1 ∨ k = 3 ∨ k = 2 := by rw [hl] at hk; simpa using hk
     rcases this with rfl | rfl | rfl <;> exact ⟨rfl, ⟨_, 1⟩, by decide, rfl⟩
@@ -826,10 +929,7 @@ theorem ex_good_view_after_view_change :
       rcases this with rfl | rfl
       · exact ⟨by decide, by decide, fun _ => by decide, ⟨by decide, by decide⟩⟩
       · exact ⟨by decide, by decide, fun _ => by decide, ⟨by decide, by decide⟩⟩)
-    (by
-      rw [hl, hn, ho]
-      exact ⟨by decide, ⟨rfl, ⟨⟨C11Net.exNV.pp, C11Net.exNV.block⟩, by decide, rfl, rfl, by decide⟩, ⟨by decide, by decide⟩⟩, by decide,
-        fun h => absurd rfl h, Or.inr ⟨by decide, 1, by decide, by decide⟩⟩)
+    (by rw [hl, hn]; decide) (by rw [hl, hn]; exact ⟨by decide, by decide⟩)
   refine ⟨net', hr', ?_⟩
   intro j hj
   exact hc j (by rw [hl]; simpa using hj)
@@ -857,10 +957,7 @@ theorem ex_good_view_normal_case :
       rcases this with rfl | rfl
       · exact ⟨hj, rfl, by decide, ⟨rfl, rfl, by decide, by decide⟩, by decide, by decide, ⟨by decide, by decide⟩⟩
       · exact ⟨hj, rfl, by decide, ⟨rfl, rfl, by decide, by decide⟩, by decide, by decide, ⟨by decide, by decide⟩⟩)
-    (by
-      rw [hl, hn, ho]
-      exact ⟨by decide, ⟨rfl, ⟨exPP, by decide, rfl, rfl, by decide⟩, ⟨by decide, by decide⟩⟩, by decide,
-        fun h => absurd rfl h, Or.inr ⟨by decide, 2, by decide, by decide⟩⟩)
+    (by rw [hl, hn]; decide) (by rw [hl, hn]; exact ⟨by decide, by decide⟩)
   refine ⟨net', hr', ?_⟩
   intro j hj
   exact hc j (by rw [hl]; simpa using hj)
